@@ -179,6 +179,15 @@ def ob_equivocation(run, oid):
                 if K.mentions_field(t, "commitment_cache", "BlockData"):
                     ws.setdefault(K.root_fn(b.defpath), []).append(c)
     o.check(set(x.rsplit("::", 1)[-1] for x in ws) == {"add_shred", "add_own_slice"}, "commitment_cache|writers", "commitment_cache is written in BlockData::add_shred and add_own_slice only", "", {"writers": [fshort(x) for x in ws]})
+    # every validated dissemination shred of a slot whose leader is not yet flagged reaches BlockData::add_shred (the commitment / last-slice
+    # comparison): detection of a conflicting signed shred must not depend on when it arrives (e.g. after the first block was completed)
+    sb = prog.body(A + "consensus::blockstore::slot_block_data::SlotBlockData::add_shred_from_dissemination")
+    if sb is None:
+        o.missing("SlotBlockData::add_shred_from_dissemination")
+    else:
+        for c in sb.calls_to(A + "consensus::blockstore::slot_block_data::BlockData::add_shred"):
+            extra = D.extra_guards(prog, sb, c.bb, [lambda a: a[0] == "bool" and K.is_field(K.peel(a[1][0]), "leader_misbehaved", "SlotBlockData")])
+            o.check(not extra, "add_shred_from_dissemination|compare|always", "only the leader-already-flagged test stands before the comparison with the cached commitment", c.span, {"extra": G.atoms_show(extra)})
     # no other mutation of the cache: entries are never removed, cleared or replaced (a forgotten commitment can no longer expose equivocation)
     muts = []
     for mb in K.bodies_in(prog, A + "consensus::blockstore"):
@@ -390,6 +399,10 @@ def check(run):
     # (side selected by the index bit, ordered and labelled pair hash, index domain)
     from . import C15
     C15.check(run, prefix="O12.8")
+    # "no shred that passes validation for a correct leader's slice can cause that leader to be reported": the block-level gates that turn
+    # validated shreds into InvalidShred (parent switch rules) refuse only what a correct leader never produces
+    from . import C13
+    C13.ob_content_gates(run, "O12.9")
     if run.tier == "thorough":
         witness(run, "O12.1w")
 
